@@ -11,6 +11,8 @@ OWNERS = {}     # id(object) -> index of the run that created it
 def run_scenario(spec, k, switches):
     from rqalpha.environment import Environment
     S, cfgk, ids, own = isotrace.build(spec)
+    no_fut = cfgk.pop("_no_future_orders", False)
+    trade_ids = [i for i in ids if not (no_fut and "." not in i)]
     obs = {}
     day_done = {}
 
@@ -59,11 +61,41 @@ def run_scenario(spec, k, switches):
                 obs.setdefault("own_results", []).append(r)
             if spec["kind"] == "fail" and len(day_done) >= 2:
                 raise ValueError("strategy bug injected by the harness")
+            if no_fut and "FUTURE" in context.portfolio.accounts:
+                # the only futures order of an init-positions run: an opening order sized by the available cash (margin must be the real one)
+                a = context.portfolio.accounts["FUTURE"]
+                f0 = next(i for i in ids if "." not in i)
+                p_ = bar_dict[f0].close
+                if p_ == p_ and p_ > 0 and len(day_done) == 2:
+                    try:
+                        o = api.buy_open(f0, max(1, int(a.cash / (p_ * 10 * 0.1) * 0.9)))
+                        r = "order:%s" % (o.status.name if not isinstance(o, list) else [x.status.name for x in o])
+                    except Exception as ex:
+                        r = "raised:" + type(ex).__name__
+                    tr.events.append(("OWN_INSTRUMENT", {"day": d, "result": "init-position leg: cash %r margin %r -> %s" % (a.cash, a.margin, r)}))
+            if spec["kind"] == "rebalance" and "STOCK" in context.portfolio.accounts:
+                sids = sorted(i for i in ids if "." in i)
+                if len(day_done) == 1:
+                    for i in sids:
+                        try:
+                            api.order_shares(i, 300)
+                        except Exception:
+                            pass
+                elif len(day_done) == 3:
+                    # everything except the first stock is closed by one call: several positions absent from the target
+                    api.order_target_portfolio({sids[0]: 0.1})
+            # once in a while: rebalance to a one-stock target portfolio (everything else held is closed, in the API's own order)
+            stocks_held = [p.order_book_id for p in api.get_positions() if "." in p.order_book_id and p.quantity > 0]
+            if len(stocks_held) >= 2 and len(day_done) % 3 == 0 and "STOCK" in context.portfolio.accounts:
+                try:
+                    api.order_target_portfolio({sorted(stocks_held)[0]: 0.2})
+                except Exception as ex:
+                    tr.events.append(("OWN_INSTRUMENT", {"day": d, "result": "order_target_portfolio raised " + type(ex).__name__}))
             hb0(context, bar_dict)
         return dict(handlers, init=init, handle_bar=handle_bar)
     rnd = random.Random(spec["seed"] + 1)
     an = {"enabled": True, "record": True, "plot": False, "benchmark": None} if spec["kind"] == "analyser" else False
-    tr = trading.run_trading(rnd, S, cfgk, script=script, ids=ids, analyser=an, workaround_f19=False)
+    tr = trading.run_trading(rnd, S, cfgk, script=script, ids=trade_ids, analyser=an, workaround_f19=False)
     want_sw = {"StockPosition.dividend_reinvestment": cfgk["accounts_mod"].get("dividend_reinvestment", False),
                "StockPosition.cash_return_by_stock_delisted": cfgk["accounts_mod"].get("cash_return_by_stock_delisted", True),
                "StockPosition.t_plus_enabled": cfgk["accounts_mod"].get("stock_t1", True)}
